@@ -302,6 +302,8 @@ def constraint_specs(par_names, pvals):
     specs["matrix-cov-rel"] = dict(
         form="matrix", names=[p0, p1], values=vals, matrix=[[0.02, 0.003], [0.003, 0.05]], matrix_type="cov", relative=True
     )
+    # measurements of very different precision (variances 4e8 and 1e-8: a regular matrix whose numerical rank is 1)
+    specs["matrix-scales"] = dict(form="matrix", names=[p0, p1], values=vals, matrix=[[4.0e8, 0.0], [0.0, 1.0e-8]], matrix_type="cov", relative=False)
     if len(par_names) >= 3:
         p2 = par_names[2]
         specs["matrix3"] = dict(
